@@ -15,6 +15,7 @@ import (
 func init() {
 	zzsv.Register("ZZ_C19_Sandwich", ZZ_C19_Sandwich)
 	zzsv.Register("ZZ_C19_LargePrograms", ZZ_C19_LargePrograms)
+	zzsv.Register("ZZ_C19_EqualObjects", ZZ_C19_EqualObjects)
 	zzsv.Register("ZZ_C19_MapOrder", ZZ_C19_MapOrder)
 }
 
@@ -285,5 +286,72 @@ func zzC19Large(sv *zzsv.T) {
 	sv.Assert("C19.large.same_failure", r1.errs[0] == r2.errs[0])
 	if !r1.errs[0] && !r2.errs[0] {
 		sv.Assert("C19.large.same_result", r1.out[0].Type() == r2.out[0].Type() && r1.out[0].Inspect() == r2.out[0].Inspect())
+	}
+}
+
+type zzC19Leaf struct {
+	N *int
+	S string
+}
+
+type zzC19Deep struct {
+	Name  string
+	Count int64
+	Inner zzC19Leaf
+	PLeaf *zzC19Leaf
+	Arr   [2]*int
+	Ch    chan int
+	Any   interface{}
+	PP    **int
+	Tags  []string
+}
+
+// ZZ_C19_EqualObjects: two host objects that are equal in every value but
+// were allocated separately (so every pointer, channel and slice in them
+// lives at another address) give the same results, host-call arguments and
+// printed forms - also for the fields of kinds the language cannot
+// represent, however those are rendered.
+func ZZ_C19_EqualObjects(sv *zzsv.T) {
+	scripts := []string{
+		"return Inner;", "return string(Inner);", "return PLeaf;", "return string(PLeaf) + type(PLeaf);", "return [Arr, Ch, Any, PP];",
+		"t(Inner, PLeaf, Arr); return len(string(PP)) + Count;", "return sprintf(\"%v %s\", Any, Ch);", "foreach x in [Inner, PLeaf, Any] { t(x); } return Name;",
+		"h = {\"a\": PLeaf, \"b\": Inner}; return string(h);", "return Tags;",
+	}
+	src := scripts[sv.Choice("script", len(scripts))]
+	sv.Note("script", src)
+	c := []int64{0, 41}[sv.Choice("Count", 2)]
+	mk := func() *zzC19Deep {
+		n1, n2, n3 := 7, 8, 9
+		pn := &n3
+		return &zzC19Deep{Name: "n", Count: c, Inner: zzC19Leaf{N: &n1, S: "s"}, PLeaf: &zzC19Leaf{N: &n2, S: "p"},
+			Arr: [2]*int{&n1, &n2}, Ch: make(chan int), Any: &zzC19Leaf{N: &n1}, PP: &pn, Tags: []string{"a", "b"}}
+	}
+	o1, o2 := mk(), mk()
+	var tr1, tr2 []object.Object
+	run := func(o *zzC19Deep, tr *[]object.Object) (string, bool) {
+		e := New(src)
+		e.AddFunction("t", func(args []object.Object) object.Object {
+			*tr = append(*tr, args...)
+			return &object.Void{}
+		})
+		if e.Prepare() != nil {
+			return "", true
+		}
+		out, err := e.Execute(o)
+		if err != nil || out == nil {
+			return "", true
+		}
+		return string(out.Type()) + ":" + out.Inspect(), false
+	}
+	r1, f1 := run(o1, &tr1)
+	r2, f2 := run(o2, &tr2)
+	sv.Observe("failed", f1, f2)
+	sv.Assert("C19.equalobjects.same_failure", f1 == f2)
+	sv.Assert("C19.equalobjects.same_result", r1 == r2)
+	sv.Assert("C19.equalobjects.same_calls", len(tr1) == len(tr2))
+	if len(tr1) == len(tr2) {
+		for i := range tr1 {
+			sv.Assert("C19.equalobjects.same_call_args", tr1[i].Type() == tr2[i].Type() && tr1[i].Inspect() == tr2[i].Inspect())
+		}
 	}
 }
